@@ -225,6 +225,14 @@ def rule_fresh(c: Ctx) -> RuleResult:
                 par = f.module.parents.get(n)
                 if isinstance(par, ast.Assign) and par.value is n and all(isinstance(t, ast.Name) for t in par.targets):
                     continue             # saved only to be restored (the restored value is dead, see (1))
+                gp = f.module.parents.get(par) if par is not None else None
+                if isinstance(par, ast.Tuple) and isinstance(gp, ast.Assign) and gp.value is par and all(isinstance(t, ast.Name) for t in gp.targets):
+                    # saved as a component of a tuple that is only unpacked back into the fields it was read from
+                    nm = gp.targets[0].id
+                    uses = [x for x in own_nodes(f.node) if isinstance(x, ast.Name) and x.id == nm and isinstance(x.ctx, ast.Load)]
+                    if uses and all(isinstance(f.module.parents.get(x), ast.Assign) and f.module.parents.get(x).value is x
+                                    and all(isinstance(t, ast.Tuple) for t in f.module.parents.get(x).targets) for x in uses):
+                        continue
                 reads.append(n)
         if not reads:
             continue
